@@ -1,0 +1,111 @@
+/*
+ * Verification facade: the crate-private client implementation (driver-level state machine).
+ */
+
+use crate::client::*;
+use crate::client::config::*;
+use crate::verif::text::*;
+
+use std::panic::{catch_unwind, AssertUnwindSafe};
+use std::sync::{Arc, Mutex};
+use std::time::{Duration, Instant};
+
+fn duration_from_token(token: &str) -> TextResult<Duration> {
+    if token == "max" { return Ok(Duration::MAX); }
+    let nanos = token.parse::<u128>().map_err(|_| format!("bad duration {}", token))?;
+    let secs = nanos / 1_000_000_000;
+    if secs > u64::MAX as u128 { return Err("duration out of range".to_string()); }
+    Ok(Duration::new(secs as u64, (nanos % 1_000_000_000) as u32))
+}
+
+pub struct ClientImpl {
+    client: MqttClientImpl,
+    events: Arc<Mutex<Vec<String>>>,
+}
+
+impl ClientImpl {
+
+    /// tokens: jitter(0=None|1=Uniform) base_ns max_ns stability_ns connect_timeout_ns   (ns | `max`)
+    pub fn new(tokens: &[&str]) -> TextResult<ClientImpl> {
+        if tokens.len() < 5 { return Err("client config: too few tokens".to_string()); }
+        let mut builder = MqttClientOptions::builder();
+        builder.with_reconnect_period_jitter(match tokens[0] { "0" => ExponentialBackoffJitterType::None, "1" => ExponentialBackoffJitterType::Uniform, _ => { return Err("bad jitter".to_string()); } });
+        builder.with_base_reconnect_period(duration_from_token(tokens[1])?);
+        builder.with_max_reconnect_period(duration_from_token(tokens[2])?);
+        builder.with_reconnect_stability_reset_period(duration_from_token(tokens[3])?);
+        builder.with_connect_timeout(duration_from_token(tokens[4])?);
+        let client_options = builder.build();
+        let connect_options = ConnectOptions::builder().with_client_id("verif").build();
+        let client = MqttClientImpl::new(client_options, connect_options, Box::new(|event, listener| { (listener)(event) }));
+        Ok(ClientImpl { client, events: Arc::new(Mutex::new(Vec::new())) })
+    }
+
+    /// advance_reconnect_period -> `ok <nanos>` | `panic:<message>`
+    pub fn advance_reconnect_period(&mut self) -> String {
+        let client = &mut self.client;
+        match catch_unwind(AssertUnwindSafe(|| client.advance_reconnect_period())) {
+            Ok(d) => format!("ok {}", d.as_nanos()),
+            Err(payload) => {
+                let message = if let Some(s) = payload.downcast_ref::<&str>() { s.to_string() } else if let Some(s) = payload.downcast_ref::<String>() { s.clone() } else { "unknown".to_string() };
+                format!("panic:{}", message.replace(' ', "_"))
+            }
+        }
+    }
+
+    pub fn next_reconnect_period_nanos(&self) -> u128 { self.client.verif_next_reconnect_period().as_nanos() }
+
+    /// Makes the client believe its current connection succeeded `ago_nanos` ago.
+    pub fn set_successful_connect_age(&mut self, ago_nanos: u64) {
+        self.client.verif_set_successful_connect_time(Some(Instant::now() - Duration::from_nanos(ago_nanos)));
+    }
+
+    pub fn force_current_state(&mut self, state: &str) -> TextResult<()> {
+        self.client.verif_set_current_state(state_from_token(state)?);
+        Ok(())
+    }
+
+    pub fn set_desired_state(&mut self, state: &str) -> TextResult<()> {
+        self.client.verif_set_desired_state(state_from_token(state)?);
+        Ok(())
+    }
+
+    /// transition_to_state -> `ok` | `err:<Kind>` | `panic:...`, followed by the resulting state
+    pub fn transition_to_state(&mut self, state: &str) -> TextResult<String> {
+        let target = state_from_token(state)?;
+        let client = &mut self.client;
+        let result = catch_unwind(AssertUnwindSafe(|| client.transition_to_state(target)));
+        let outcome = match result {
+            Ok(Ok(())) => "ok".to_string(),
+            Ok(Err(e)) => format!("err:{}", error_kind(&e)),
+            Err(_) => "panic".to_string(),
+        };
+        Ok(format!("{} {}", outcome, state_to_token(self.client.get_current_state())))
+    }
+
+    pub fn compute_optional_state_transition(&self) -> String {
+        match self.client.compute_optional_state_transition() { None => "-".to_string(), Some(s) => state_to_token(s).to_string() }
+    }
+
+    pub fn events(&self) -> Arc<Mutex<Vec<String>>> { self.events.clone() }
+}
+
+pub(crate) fn state_from_token(token: &str) -> TextResult<ClientImplState> {
+    match token {
+        "Stopped" => Ok(ClientImplState::Stopped),
+        "Connecting" => Ok(ClientImplState::Connecting),
+        "Connected" => Ok(ClientImplState::Connected),
+        "PendingReconnect" => Ok(ClientImplState::PendingReconnect),
+        "Shutdown" => Ok(ClientImplState::Shutdown),
+        _ => Err(format!("bad client state {}", token)),
+    }
+}
+
+pub(crate) fn state_to_token(state: ClientImplState) -> &'static str {
+    match state {
+        ClientImplState::Stopped => "Stopped",
+        ClientImplState::Connecting => "Connecting",
+        ClientImplState::Connected => "Connected",
+        ClientImplState::PendingReconnect => "PendingReconnect",
+        ClientImplState::Shutdown => "Shutdown",
+    }
+}
